@@ -529,8 +529,8 @@ class ConstructedAsn1Type(Asn1Type):
             if not subtypeSpec:
                 subtypeSpec += sizeSpec
 
-            elif not constraint.ConstraintsIntersection(
-                    sizeSpec).isSuperTypeOf(subtypeSpec):
+            elif not constraint.ConstraintsIntersection._isImposedBy(
+                    sizeSpec, subtypeSpec):
                 # not there yet (cloning passes the moved one back in)
                 subtypeSpec = constraint.ConstraintsIntersection(
                     subtypeSpec, sizeSpec)
